@@ -134,6 +134,11 @@ def run_one(s):
 
             def build(op=op, log=log, g=g):
                 kind = op["kind"]
+                if kind == "pidon" and op.get("red", "mean") != "mean":
+                    from torchphysics.problem.conditions.condition import SquaredError
+                    return tp.conditions.DeepONetSingleModuleCondition(models[op["mid"]][0], fss[op["fs"]], pts_sampler(),
+                                                                       mk_res(op["res"], op["rev"], log), error_fn=SquaredError(),
+                                                                       reduce_fn=(torch.sum if op["red"] == "sum" else torch.max), data_functions={"g": g})
                 if kind == "pidon":
                     return tp.conditions.PIDeepONetCondition(models[op["mid"]][0], fss[op["fs"]], pts_sampler(),
                                                              mk_res(op["res"], op["rev"], log), data_functions={"g": g})
